@@ -136,8 +136,12 @@ def run(ctx):
         carried = [e for e in o.st.ev if e[0] == 'loop-carried']
         entries = ()
         if V[0] == 'carried':
-            entries = tuple(e[4] for e in carried if e[2] == V)      # the values the candidate enters the probe loop with: each judged below
-            defs = [(Vd, o) for Vd in entries] + [(lo.st.env[V[1]], lo) for lo in outs if lo.kind == 'loop' and V[1] in lo.st.env]
+            # the values the candidate enters the probe loop with, on whichever path (the step taken before the loop forks on the
+            # wrap test: one path enters with 1, another with counter + 1): each is judged below as a definition, on the path that
+            # computed it; what the body then makes of the carried value is judged on the paths that go round again
+            enter = [(e[4], x) for x in outs for e in x.st.ev if e[0] == 'loop-carried' and e[1] == V[1]]
+            entries = tuple(Vd for Vd, _x in enter)
+            defs = enter + [(lo.st.env[V[1]], lo) for lo in outs if lo.kind == 'loop' and V[1] in lo.st.env]
             ctx.add('N2.step', A.path + '|defs', loc(root), len(defs) >= 2, 'the candidate carried around the probe loop has no visible definition')
         else:
             defs = [(V, o)]
